@@ -706,6 +706,9 @@ def tasks():
     # hints message, whatever its content, into automat.NoTransition out of received_dilation_message
     from .common import shared_tasks
     out += shared_tasks("c20", "c11", ("Manager.rx_HINTS", "Manager.use_hints"))
+    # encode side, transit flavour: the hints this side publishes (contracts and lemma live in props/c07.py)
+    # (lemma:published_direct_hint_parses_back is proved in C07's run only: see ASSUMPTIONS)
+    out += shared_tasks("c20", "c07", ("Common._build_listener", "Common._get_direct_hints", "Common.get_connection_hints"))
     return out
 
 
@@ -735,8 +738,13 @@ ASSUMPTIONS = ["JSON floats are reals; a priority 1 and a priority 1.0 are disti
                "returned None (a relay-v1 hint whose sub-hint is tor-tcp-v1 on a client without Tor, or an address Tor refuses): "
                "AttributeError inside the reactor (replay/native/c20_connect_scheduled_without_endpoint.py); the obligations "
                "one-attempt-scheduled-iff-there-is-an-endpoint / no-connect-scheduled-without-an-endpoint guard the repair",
-               "not under contract: Common.get_connection_hints / _get_direct_hints (inlineCallbacks + listener set-up: this side's own "
-               "addresses; transit flavour). Dilation encode side is under contract: encode_hint (relation `encodes`), "
+               "Common.get_connection_hints / _get_direct_hints / _build_listener (transit flavour) are under contract in props/c07.py "
+               "(shared tasks): every direct dict published is wellformed_tcp and hint_matches its hint object, and "
+               "lemma:published_direct_hint_parses_back (a C07 task: shared into this module's run it crashed the checker inside "
+               "valid_any_hint - not investigated - so it is discharged under C07 only) gives parse_hint(dict) == hint object from "
+               "exactly these two facts; the relay dicts of get_connection_hints (sub-hints reproduced unchanged) are NOT registered - "
+               "the quantified clause and its loop invariant stayed undecided within the budget",
+               "Dilation encode side is under contract: encode_hint (relation `encodes`), "
                "Connector._publish_hints / listener_ready / start, _start_listener + its callback (lemma listener_hints), "
                "Manager.send_hints. Manager.send_hints is a recorded boundary call in the Connector's tasks and verified on its own "
                "body separately (dict_to_bytes / JSON encoding trusted); Connector._get_listener_addresses is inlined with "
